@@ -336,7 +336,13 @@ func runC01(r *ev.Run) {
 			continue
 		}
 		reps := pick(r, 1, 3)
-		for rep := 0; rep < reps; rep++ {
+		// reassembling layers get extra runs over a transport with a very short receive queue: its buffers are recycled
+		// while parts of other messages are still being collected (and parts are lost, so aggregators see incomplete messages)
+		shortq := 0
+		if sf.Name == "frag(mem)" || sf.Name == "mbapp(mem)" {
+			shortq = pick(r, 2, 4)
+		}
+		for rep := 0; rep < reps+shortq; rep++ {
 			idx++
 			cg := g.Fork()
 			if !r.Mine(idx) {
@@ -346,7 +352,11 @@ func runC01(r *ev.Run) {
 			if !r.Want(caseID) {
 				continue
 			}
-			st, err := sf.Build(stackOptsFor(sf.Name, cg))
+			so := stackOptsFor(sf.Name, cg)
+			if rep >= reps {
+				so.queueLen = []int{4, 8, 2, 16}[(rep-reps)%4]
+			}
+			st, err := sf.Build(so)
 			if err != nil {
 				r.Inconclusive("cannot build " + sf.Name + ": " + err.Error())
 				continue
@@ -358,8 +368,8 @@ func runC01(r *ev.Run) {
 			if d == 0 {
 				r.Inconclusive("no delivery observed on " + st.Name)
 			}
-			if rep == 0 {
-				r.Sample(map[string]any{"stack": st.Name, "mtu": st.Nodes[0].MTU(), "inner_mtu": st.InnerMTU, "senders_per_node": cfg.senders, "receivers_per_node": cfg.receivers, "delivered": d})
+			if rep == 0 || rep == reps {
+				r.Sample(map[string]any{"stack": st.Name, "mtu": st.Nodes[0].MTU(), "inner_mtu": st.InnerMTU, "queue_len": so.queueLen, "senders_per_node": cfg.senders, "receivers_per_node": cfg.receivers, "delivered": d})
 			}
 		}
 	}
